@@ -130,6 +130,14 @@ class C03(F.Spec):
                     ops += ["msg 690 " + chan_config(a, 110, 0, rs_cfg(5000, 5000, 2, 2, -1, 0)).hex(), "adv 100",
                             "msg 690 " + chan_config(b, 110, 0, rs_cfg(5000, 5000, second, second, -1, 0)).hex(), "adv 100"]
                     yield F.Case("updown-bits-%d-%d-%d" % (a, b, second), ops, {"board": "rs3", "tags": ["board:rs3", "updown-bits"]})
+        # the settings of a shutter named by any channel number, also beyond the shutters and inputs the device has: switching
+        # "buttons upside down" / "motor upside down" on and off again touches nothing outside the tables
+        for ch in (0, 1, 2, 3, 4, 5, 6, 7, 8, 15, 127, 255):
+            for board in ("rs2 0", "rs4 0", "relay2 0"):
+                ops = ["board " + board, "init", "calllog 1"]
+                for second in (2, 1, 2):
+                    ops += ["msg %d " % (690 if second == 2 else 682) + chan_config(ch, 110, 0, rs_cfg(5000, 5000, second, second, -1, 0)).hex(), "adv 100"]
+                yield F.Case("updown-any-channel-%d-%s" % (ch, board.split()[0]), ops, {"board": board.split()[0], "tags": ["board:" + board.split()[0], "updown-any"]})
         for i in range(n):
             yield self.gen(rng, i)
 
@@ -273,6 +281,12 @@ class C03(F.Spec):
                 fs.append(F.Finding("dispatch-count", "message %d produced %d getdata calls" % (cid, len(gd))))
                 continue
             verdict = int(gd[0].split()[2])
+            row = self.rows.get(cid)
+            if verdict == 1 and row and row[0] == "exact" and len(row[1]) == 1 and len(pl) != row[2]:
+                # the handler receives a structure of row[2] bytes (the allocation): a payload of another length "does not match
+                # what its call type requires", whatever the size test in front of the allocation says
+                fs.append(F.Finding("mis-sized-accepted", "call %d is accepted with %d bytes although the structure its handler receives has %d"
+                                    % (cid, len(pl), row[2])))
             effects = [x for x in g if x.startswith(("GPIO ", "SENT ", "CHG ", "RESTART", "FLASH"))]
             if verdict != 1:
                 if effects:
